@@ -507,6 +507,46 @@ def run(rep):
                 'a path returns after editing the leaf row without running the upper-row maintenance loop' if cl.bad else
                 'every path from a leaf-row edit to the exit runs the upper-row maintenance (%d edit sites)' % cl.edits,
                 cl.bad[0] if cl.bad else None)
+    # update(): the new weight is stored on every path that does not throw -- a shortcut for "unchanged" weights decided on an
+    # absolute tolerance drops genuine updates of small weights
+    upd = fns['update']
+
+    class MustEdit(MustWalkRows):
+        def __init__(self, fn, loops):
+            super().__init__(fn, loops)
+            self.noedit = []
+            self.thrown = False
+
+        def on_node(self, fn, node, auto, ctx):
+            if node['k'] == 'CXXThrowExpr':
+                return ('threw', True)
+            if auto and auto[0] == 'threw':
+                return auto
+            if auto and auto[0] == 'same':
+                r = super().on_node(fn, node, (False, False), ctx)
+                return r if r[0] else auto
+            return super().on_node(fn, node, auto, ctx)
+
+        def learn(self, fn, node, value, auto, ctx):
+            # an exact "nothing changes" test (w == old, delta == 0) that holds on this path makes skipping the store harmless
+            if node.get('k') == 'BinaryOperator' and ((node.get('op') == '==' and value is True) or (node.get('op') == '!=' and value is False)) \
+                    and 'double' in (fn.nodes[node['ch'][0]].get('ty') or '') + (fn.nodes[node['ch'][1]].get('ty') or ''):
+                return ('same', True) if not (auto and auto[0] in (True, 'threw')) else auto
+            return auto
+
+        def at_exit(self, fn, ret, auto, ctx):
+            if auto[0] in ('threw', 'same'):
+                return
+            if not auto[0]:
+                self.noedit.append(ctx.path())
+            super().at_exit(fn, ret, auto, ctx)
+    uloops = [n for n in upd.walk() if n['k'] in ('ForStmt', 'WhileStmt')]
+    cl = MustEdit(upd, uloops)
+    paths.run_function(upd, cl, F)
+    rep.add('R12e', label(upd), 'update-always-stores', not cl.noedit, upd.loc,
+            'a path through update() returns normally without storing the new weight in the leaf row (e.g. an "unchanged weight" '
+            'shortcut): getWeight() and sample() keep answering from the old weight' if cl.noedit else
+            'every non-throwing path stores the new weight', cl.noedit[0] if cl.noedit else None)
     clr = fns['clear']
     ok = any(n['k'] == 'CXXDeleteExpr' for n in clr.walk()) and \
         any(n.get('callee') == 'std::vector::clear' and is_field(clr, n['ch'][0], DATA) for n in clr.walk()) and \
